@@ -16,7 +16,7 @@ type composer struct {
 	indexes map[string]reflect.StructField
 }
 
-func indexType(rt reflect.Type) (im map[string]reflect.StructField) {
+func indexType(rt reflect.Type, embedding ...reflect.Type) (im map[string]reflect.StructField) {
 	i := rt.NumField()
 	if 0 < i {
 		im = map[string]reflect.StructField{}
@@ -34,7 +34,18 @@ func indexType(rt reflect.Type) (im map[string]reflect.StructField) {
 					im[f.Name] = f
 					continue
 				}
-				fim := indexType(ft)
+				// A struct that embeds a pointer to itself, directly or by
+				// way of another struct, has no further members to offer.
+				cyclic := ft == rt
+				for _, et := range embedding {
+					if et == ft {
+						cyclic = true
+					}
+				}
+				if cyclic {
+					continue
+				}
+				fim := indexType(ft, append(embedding, rt)...)
 				// prepend index and add to im
 				for k := range fim {
 					ff := fim[k]
